@@ -97,7 +97,7 @@ def r3_vint64_length(c):
     c.ob("R3", "write_usize-length-from-table", wired,
          "write_usize takes its length from usize_encoded_len(value as u64)" if wired else "write_usize does not take its length from usize_encoded_len(value)", w)
     for g, label in ((w, "write_usize"), (r, "read_usize")):
-        nine = [x for x in cmp_sites(g) if x["op"] == "Eq" and 9 in (slice_const_ints(g.slice_of_operand(x["a"], at=(x["bb"], g.INF))) |
+        nine = [x for x in cmp_sites(g) if x["op"] in ("Eq", "Ne") and 9 in (slice_const_ints(g.slice_of_operand(x["a"], at=(x["bb"], g.INF))) |
                                                                       slice_const_ints(g.slice_of_operand(x["b"], at=(x["bb"], g.INF))))]
         if not nine:
             # `match length { 9 => .., _ => .. }` compiles to a switch on the integer itself
